@@ -192,6 +192,15 @@ def run(module: str, cfg_text: str, *, workers=16, simulate: str | None = None, 
     return TLCResult(d)
 
 
+def require_actions(res: TLCResult, actions, what=""):
+    """vacuity guard: with -coverage 1 every named action must have been taken at least once (else exit 2, never a verdict)"""
+    if res.cached and not res.coverage:
+        return
+    missing = [a for a in actions if res.coverage.get(a, {}).get("taken", 0) == 0]
+    if missing:
+        raise Machinery(f"vacuous TLC run{' (' + what + ')' if what else ''}: actions never taken: {missing}")
+
+
 def sany(module: str) -> bool:
     p = subprocess.run(["java", "-cp", TLC_CP, "tla2sany.SANY", module + ".tla"], cwd=SPEC,
                        stdout=subprocess.PIPE, stderr=subprocess.STDOUT, text=True)
